@@ -277,6 +277,23 @@ func genFaults(tier string, rng *rand.Rand, shard, nshards int, hooks int, emit 
 						emit(doOp(ex, hooks, fl, R, "d:"+hx(big)))
 						emit(doOp(ex, hooks, fl, R, cutScript(rng, big, []int{n, n + 100, n + 250}, false)))
 						emit(doOp(ex, hooks, fl, R, "d:"+hx(rbytes(rng, 700))))
+						// just around the frame limits of both client kinds (256 serial, 260 network)
+						for _, L := range []int{255, 256, 257, 258, 259, 260, 261, 262, 266, 267} {
+							if L <= n {
+								continue
+							}
+							exact := append(append([]byte{}, R...), rbytes(rng, L-n)...)
+							emit(doOp(ex, hooks, fl, R, "d:"+hx(exact)))
+							if rng.Intn(2) == 0 {
+								emit(doOp(ex, hooks, fl, R, cutScript(rng, exact, []int{n}, false)))
+							}
+						}
+						// the caller's context is already cancelled: nothing the transport offers may turn into success
+						emit(doOp(ex, hooks, fl, R, "pc"))
+						emit(doOp(ex, hooks, fl, R, "pc;d:"+hx(R)))
+						if n > 2 {
+							emit(doOp(ex, hooks, fl, R, "pc;d:"+hx(R[:n/2])+";d:"+hx(R[n/2:])))
+						}
 						// faults after every prefix
 						prefixes := []int{0}
 						prefixes = append(prefixes, cutPositions(rng, n, tier, []int{5, 8, 9, 11, 12, n - 1})...)
